@@ -188,7 +188,7 @@ impl Arena {
 
     #[allow(clippy::mut_from_ref)]
     pub fn alloc_uninit_slice<T>(&self, count: usize) -> &mut [MaybeUninit<T>] {
-        let bytes = mem::size_of::<T>() * count;
+        let bytes = mem::size_of::<T>().checked_mul(count).expect("slice size should fit in usize");
         let alignment = mem::align_of::<T>();
         let ptr = self.alloc_raw(bytes, alignment).unwrap();
         unsafe { slice::from_raw_parts_mut(ptr.cast().as_ptr(), count) }
